@@ -318,18 +318,3 @@ example : ∃ e, toRegexG ripRx exHandRx (fun _ l => l) = .ok (some e) ∧
   | some e => exact ⟨e, ho, hm⟩
 
 end AV.Props.C12
-
-#print axioms AV.Props.C12.C12_validate_accepted
-#print axioms AV.Props.C12.C12_validate_gives_loose
-#print axioms AV.Props.C12.C12_validate_gives_shape
-#print axioms AV.Props.C12.C12_validate_gives_core_shape
-#print axioms AV.Props.C12.C12_toRegexG_of_validate
-#print axioms AV.Props.C12.C12_toRegexG_total_of_validate
-#print axioms AV.Props.C12.C12_to_regex_total_of_validate
-#print axioms AV.Props.C12.C12_to_regex_strings_of_validate
-#print axioms AV.Props.C12.C12_elim_ast_all_orders_of_validate
-#print axioms AV.Props.C12.C12_loose_step
-#print axioms AV.Props.C12.C12_validate_does_not_give_shape
-#print axioms AV.Props.C12.C12_validate_does_not_give_shape_junk_row
-#print axioms AV.Props.C12.C12_validate_does_not_give_shape_init_entry
-#print axioms AV.Props.C12.C12_row_nodup_needed
